@@ -75,6 +75,16 @@ TIvsRead ==
   /\ \A r \in DOMAIN Ev.rows :
         /\ Len(Ev.rows[r]) = Len(Ev.data.region_indexes)
         /\ \A k \in DOMAIN Ev.rows[r] : Ev.rows[r][k] = Cell(Ev.data, r - 1, k)
+\* one row of a large store (more rows than one subtable holds): the raw bytes of the row the returned index points at
+\* decode, region by region, to the delta set that was added
+TIvsRow ==
+  /\ IsEvent("ivs_row")
+  /\ Ev.outer < Ev.n_datas /\ Ev.inner < Ev.item_count /\ Ev.item_count <= 65535
+  /\ LET d == [item_count |-> 1, word_count |-> Ev.word_count, region_indexes |-> Ev.region_indexes, bytes |-> Ev.row_bytes] IN
+     /\ DataOK(d)
+     /\ \A R \in AllRegions(<<Ev.added>>) :
+          LET j == FinalIndex(Ev.regions, R) IN
+          (IF j < 0 THEN 0 ELSE Lookup(<<d>>, 0, 0, j)) = Given(Ev.added, R)
 TInit == l = 1
-TraceSpec == TInit /\ [][TIvs \/ TNorm \/ TAvar \/ TIvsRead]_l
+TraceSpec == TInit /\ [][TIvs \/ TNorm \/ TAvar \/ TIvsRead \/ TIvsRow]_l
 =============================================================================
